@@ -90,22 +90,16 @@ def bigintSizeOk (L : LargeSet) (S : SmallSet) : Bool :=
 
 /-! ### feature set `radix` -/
 
-/-- radices excluded from `split_radix_radix`: the entry of `split_radix` is not usable by `pow` -/
-def splitRadixExcluded : List Nat := [12]
-
-theorem split_radix_radix :
-    radixAll (fun r => splitRadixExcluded.contains r || splitRadixOk LargeSet.Radix r) = true := by
+/-- All 35 radices. History: until /repo commit 64f91ce (`fix: split_radix(12) must return the odd part
+(3, 2)`) this theorem needed the exclusion `r ≠ 12`: `split_radix(12)` was `(6, 1)` and
+`get_large_int_power(6)` falls through to the radix-35 entry (`35^60` instead of `6^60`); the exclusion
+and its `decide`d witness were dropped when the fix landed and this statement became provable. -/
+theorem split_radix_radix : radixAll (splitRadixOk LargeSet.Radix) = true := by
   decide +kernel
 
-/-- the product half holds for all 35 radices, 12 included -/
-theorem split_radix_product_radix : radixAll (splitRadixProductOk LargeSet.Radix) = true := by
-  decide +kernel
-
-/-- **witness for the exclusion**: `split_radix(12) = (6, 1)`; 6 has no arm in
-`get_large_int_power`, which falls through to the radix-35 entry: the limbs selected for base 6
-denote `35^60`, not `6^60` -/
-theorem split_radix_12_fails :
-    splitRadixOk LargeSet.Radix 12 = false ∧ LargeSet.Radix.splitRadix 12 = (6, 1) ∧
+/-- bases without an arm in `get_large_int_power` (even bases, 1) fall through to the radix-35 entry,
+so `split_radix` must never return one of them: e.g. base 6 selects `35^60` -/
+theorem large_power_fallthrough :
     LargeSet.Radix.largeStep 6 = 60 ∧
     limbsVal 64 (LargeSet.Radix.largeLimbs 6).toList = 35 ^ 60 ∧
     limbsVal 64 (LargeSet.Radix.largeLimbs 6).toList ≠ 6 ^ 60 := by
